@@ -47,7 +47,8 @@ def main():
     root = os.environ.get('ASEFILE_ROOT', '/repo')
     t0 = time.time()
     mod = importlib.import_module(prop)
-    need_utils = getattr(mod, 'NEEDS_UTILS', False) and tier == 'thorough'
+    nu = getattr(mod, 'NEEDS_UTILS', False)
+    need_utils = nu == 'always' or (nu and tier == 'thorough')
     if cached:
         fx = F.load(cached, root)
         fx.extract_s = 0.0
@@ -55,7 +56,8 @@ def main():
         fx = F.extract(root)
     fxu = None
     if need_utils:
-        fxu = F.extract(root, features='utils')
+        cu = os.environ.get('ASEMIR_FACTS_UTILS')      # development only, like --facts
+        fxu = F.load(cu, root) if (cached and cu) else F.extract(root, features='utils')
     ctx = R.Ctx(prop, fx, tier, fxu)
     ctx.assumptions = list(COMMON_ASSUMPTIONS)
     ctx.root = root
